@@ -3,6 +3,7 @@ package rules
 import (
 	"fmt"
 	"go/token"
+	"go/types"
 	"net"
 	"sort"
 	"strings"
@@ -120,11 +121,18 @@ func ruleDial(c *Ctx) {
 					arg := s.Ins.(ssa.CallInstruction).Common().Args[idx]
 					// a closure converted to a dialer type whose own dials are all on the field
 					okArg, _ := p.AllFrom(arg, deepF, func(y ssa.Value) bool {
-						mc, ok := y.(*ssa.MakeClosure)
-						if !ok {
+						var lit *ssa.Function
+						if mc, ok := y.(*ssa.MakeClosure); ok {
+							lit = mc.Fn.(*ssa.Function)
+						} else if al, ok := y.(*ssa.Alloc); ok {
+							// a value of a service type that implements the dialer interface itself
+							if pt, ok := al.Type().(*types.Pointer); ok {
+								lit = fnByMethod(c, "service", eng.TypeName(pt.Elem()), "DialStream")
+							}
+						}
+						if lit == nil {
 							return false
 						}
-						lit := mc.Fn.(*ssa.Function)
 						good := false
 						for _, cl := range eng.Calls(lit) {
 							if call, ok := cl.(*ssa.Call); ok && eng.MethodName(&call.Call) == "DialStream" {
